@@ -153,3 +153,26 @@ Example C10_example_text :
   /\ map a_pol (spec_load (file_lines text) (clear_policy C10_example_model))
      = [ []; [[[97]; [102;40;120;44;121;41]]]; []; [[[97]; [98]]]; [] ].
 Proof. vm_compute. repeat split; reflexivity. Qed.
+
+(* ---------------------------------------------------------------------------------------------------------------
+   Of the SOURCE: load_policy_line (casbin/persist/adapter.py - the one function through which the file adapter, the
+   async file adapter, the filtered file adapter and the string adapter turn a text line into a rule) is re-translated
+   on every run into a program of the language of LineLang.v (coq/gen/LoadLineGen.v); LineTie.v proves, for EVERY line
+   (any characters, any length, balanced or not) and every model, that the interpreter run on it computes
+   Csv.load_policy_line - the function the theorems above are about: skipped lines, the bracket-aware split at commas,
+   trimming, the IndexError cases, the section / key lookup and the append. *)
+From PyCasbin Require LineLang LineTie.
+From PyCasbinGen Require LoadLineGen.
+
+Theorem C10_source_load_policy_line : forall line m,
+  LineLang.lrun LineTie.LFUEL LoadLineGen.lv_line LoadLineGen.load_line_locals LoadLineGen.load_line_gen line m =
+  Csv.load_policy_line line m.
+Proof. exact LineTie.tie_load_policy_line. Qed.
+Print Assumptions C10_source_load_policy_line.
+
+Example C10_source_example :
+  LineLang.lrun LineTie.LFUEL LoadLineGen.lv_line LoadLineGen.load_line_locals LoadLineGen.load_line_gen
+    [112; 44; 32; 97; 44; 32; 102; 40; 98; 44; 99; 41; 44; 32; 100]
+    [ {| a_sec := 112; a_key := [112]; a_pol := [] |} ] =
+  Ok [ {| a_sec := 112; a_key := [112]; a_pol := [[[97]; [102; 40; 98; 44; 99; 41]; [100]]] |} ].
+Proof. vm_compute. reflexivity. Qed.
